@@ -1423,3 +1423,7 @@ mod test {
         assert_eq!(graph, "digraph G  {\nlayout=fdp\n\"Root\" -> \"A\nvery\nlong\nname\"\n\"Root\" -> \"A\nsmall\nname\"\n}\n");
     }
 }
+
+#[cfg(kani)]
+#[path = "/verif/kani/ontology.rs"]
+mod verif_kani;
